@@ -319,7 +319,7 @@ func TestC07_Replay(t *testing.T) {
 // TestC07_PAttack: general attacker programs against an SP that has an encryption key, with encryption-heavy operators.
 func TestC07_PAttack(t *testing.T) {
 	h.RunProp(t, "C07.attack", func(t *rapid.T) AttackCase {
-		return genAttackCase(t, attackOpts{encKey: true, maxOps: 4, opKinds: []string{"encrypt", "encrypt", "encrypt", "forge-assertion", "strip-sig", "nest-el", "splice", "dup-el", "wrap-root", "resign", "edit-text", "rename-el"}})
+		return genAttackCase(t, attackOpts{encKey: true, maxOps: 4, opKinds: []string{"encrypt", "encrypt", "encrypt", "forge-assertion", "strip-sig", "nest-el", "nest-assertion", "nest-assertion", "dup-el", "splice", "dup-el", "wrap-root", "resign", "edit-text", "rename-el"}})
 	}, checkC01)
 }
 
